@@ -4,10 +4,11 @@
 patch=$1; shift
 REPO=${VERIF_REPO:-/repo}
 VERIF=$(cd "$(dirname "$0")/.." && pwd)
+export VERIF_EVIDENCE_DIR=$(mktemp -d)
 cd $REPO || exit 2
 if ! git diff --quiet; then echo "$REPO has local changes; refusing"; exit 2; fi
 git apply "$patch" || { echo "patch does not apply"; exit 2; }
-trap 'git -C $REPO checkout -- . ; git -C $REPO clean -fdq' EXIT
+trap 'git -C $REPO checkout -- . ; git -C $REPO clean -fdq; rm -rf "$VERIF_EVIDENCE_DIR"' EXIT
 for id in "$@"; do
   out=$(cd $VERIF && ./check "$id" 2>/dev/null); rc=$?
   echo "== $id rc=$rc"; echo "$out" | grep -v KNOWN-FINDING | head -3
